@@ -1,14 +1,51 @@
+mod case;
+mod gen_tensor;
+mod rng;
+mod spec;
+mod tok;
+
+use std::io::Write;
+
+fn usage() -> ! {
+    eprintln!("usage: nverif gen <PROP> <quick|thorough> <seed> <outdir>");
+    std::process::exit(2)
+}
+
 fn main() {
-    let e: Vec<f32> = vec![];
-    println!("sum empty bits {:08x}", e.iter().sum::<f32>().to_bits());
-    println!("sum [0.0] bits {:08x}", vec![0.0f32].iter().sum::<f32>().to_bits());
-    println!("(-0).max(0) {:08x} (0).max(-0) {:08x}", (-0.0f32).max(0.0).to_bits(), (0.0f32).max(-0.0).to_bits());
-    println!("nan.max(1) {:08x} 1.max(nan) {:08x}", f32::NAN.max(1.0).to_bits(), 1.0f32.max(f32::NAN).to_bits());
-    println!("NEG_INF.max(-0) {:08x}", f32::NEG_INFINITY.max(-0.0).to_bits());
-    println!("clamp -0 in [0,1]: {:08x}", (-0.0f32).clamp(0.0,1.0).to_bits());
-    println!("0/0 {:08x} inf-inf {:08x} sqrt(-1) {:08x}", (0.0f32/std::hint::black_box(0.0f32)).to_bits(), (f32::INFINITY-std::hint::black_box(f32::INFINITY)).to_bits(), std::hint::black_box(-1.0f32).sqrt().to_bits());
-    println!("1e9 as usize {} nan as usize {} -1 as usize {}", 1e9f32 as usize, f32::NAN as usize, -1.0f32 as usize);
-    println!("powi {:08x} {:08x}", std::hint::black_box(0.9f32).powi(std::hint::black_box(5)).to_bits(), {let a=0.9f32; let a2=a*a; let a4=a2*a2; (a*a4).to_bits()});
-    println!("0.01 {:08x} 1/100 {:08x}; 1e-6 {:08x} {:08x}; 1e-8 {:08x} {:08x}; 0.999 {:08x} {:08x}; 1-1e-6 {:08x}", 0.01f32.to_bits(), (1.0f32/100.0).to_bits(), 1e-6f32.to_bits(), (1.0f32/1e6).to_bits(), 1e-8f32.to_bits(), (1.0f32/1e8).to_bits(), 0.999f32.to_bits(), (999.0f32/1000.0).to_bits(), (1.0f32-1e-6).to_bits());
-    println!("0.1 {:08x} {:08x} 0.9 {:08x} {:08x} 0.001 {:08x} {:08x} 0.99 {:08x} {:08x}", 0.1f32.to_bits(), (1.0f32/10.0).to_bits(), 0.9f32.to_bits(), (9.0f32/10.0).to_bits(), 0.001f32.to_bits(), (1.0f32/1000.0).to_bits(), 0.99f32.to_bits(), (99.0f32/100.0).to_bits());
+    // the implementation panics on purpose in many cases; keep stderr quiet
+    std::panic::set_hook(Box::new(|_| {}));
+    let args: Vec<String> = std::env::args().collect();
+    if args.len() < 2 {
+        usage();
+    }
+    match args[1].as_str() {
+        "gen" => {
+            if args.len() != 6 {
+                usage();
+            }
+            let prop = args[2].as_str();
+            let thorough = args[3] == "thorough";
+            let seed: u64 = args[4].parse().unwrap_or(0);
+            let outdir = std::path::Path::new(&args[5]);
+            std::fs::create_dir_all(outdir).unwrap();
+            let mut rng = rng::Rng::new(seed ^ (prop.bytes().fold(0u64, |a, b| a * 131 + b as u64)));
+            let cases = match prop {
+                "C14" => gen_tensor::gen_c14(&mut rng, thorough),
+                "C15" => gen_tensor::gen_c15(&mut rng, thorough),
+                _ => {
+                    eprintln!("no generator for {}", prop);
+                    std::process::exit(2)
+                }
+            };
+            let mut fc = std::io::BufWriter::new(std::fs::File::create(outdir.join("cases.txt")).unwrap());
+            let mut fi = std::io::BufWriter::new(std::fs::File::create(outdir.join("impl.txt")).unwrap());
+            for (i, (tag, c)) in cases.iter().enumerate() {
+                let id = format!("{}#{}#{}", prop, i, tag);
+                writeln!(fc, "{}", tok::line(&id, &c.encode())).unwrap();
+                writeln!(fi, "{}", tok::line(&id, &c.run())).unwrap();
+            }
+            println!("{} cases", cases.len());
+        }
+        _ => usage(),
+    }
 }
